@@ -24,7 +24,7 @@ RULE = ("product enumeration: (a) (symmetry, sector sizes, values per sector, D_
 ASSUMPTIONS = ["tolerances avoid exact equality v == tol*max (both readings of the boundary are acceptable)",
                "a sector missing from a D_block/tol_block dictionary is unspecified by the documentation: not compared",
                "spectra are non-negative (singular values / eigenvalues of PSD operators)"]
-BUDGET = {'quick': 120, 'thorough': 900}
+BUDGET = {'quick': 170, 'thorough': 900}
 INF = float('inf')
 
 SECTORS = {'Z2': [(0,), (1,)], 'U1': [(-1,), (0,), (2,)], 'U1xU1': [(0, 0), (1, -1), (0, 2)], 'dense': [()],
@@ -100,26 +100,46 @@ def run_mask(g, acc):
     secs = SECTORS[sym][:len(g['sizes'])]
     alpha = (3, 2, 1, 0) if acc.tier == 'quick' else (4, 3, 2, 1, 0)
     Dt, Db, tols, tbs = limit_grid(secs, acc.tier)
-    for vals in itertools.product(*[nonincr(n, alpha) for n in g['sizes']]):
+    for vals, ordered in unsorted_variants(itertools.product(*[nonincr(n, alpha) for n in g['sizes']])):
         spec = {t: list(v) for t, v in zip(secs, vals)}
         S = build_S(cfg, spec)
         s_bytes = S._data.tobytes()
-        for D_total in Dt:
+        # spectra that are not stored in descending order (truncation_mask is public and takes any diagonal tensor):
+        # every rotation/reversal of each sector, on a reduced grid of the global limits
+        for D_total in (Dt if ordered else [1, 2, INF]):
             for D_block in Db:
-                for tol in tols:
+                for tol in (tols if ordered else [0, 0.4]):
                     for tol_block in tbs:
                         acc.check_time()
                         case = {'kind': 'mask', 'sym': sym, 'spec': [[list(t), v] for t, v in spec.items()], 'D_total': D_total,
                                 'D_block': D_block, 'tol': tol, 'tol_block': tol_block}
                         st, msg, nt = mask_case(case, cfg, S, spec, secs)
                         acc.ev(repr(case), nt and st == 'ok', (st, nt))
-                        acc.cnt['mask_' + st] += 1
+                        acc.cnt['mask_' + st + ('' if ordered else '_unsorted')] += 1
                         if st == 'viol':
                             acc.fail(case, msg)
                         elif acc.evaluations % 20011 == 0:
                             acc.sample(case)
         if S._data.tobytes() != s_bytes:
             acc.fail({'kind': 'mask', 'sym': sym, 'spec': [[list(t), v] for t, v in spec.items()]}, "truncation_mask modified S")
+
+
+def unsorted_variants(it):
+    """every descending spectrum (ordered=True) followed by its distinct re-orderings: per sector the reversal and the
+    rotations, all sectors re-ordered by the same rule (ordered=False)"""
+    for vals in it:
+        yield vals, True
+        seen = {tuple(vals)}
+        for rule in ('rev', 'rot1', 'rot2'):
+            w = []
+            for v in vals:
+                v = tuple(v)
+                k = {'rot1': 1, 'rot2': 2}.get(rule, 0) % max(1, len(v))
+                w.append(v[::-1] if rule == 'rev' else v[k:] + v[:k])
+            w = tuple(w)
+            if w not in seen:
+                seen.add(w)
+                yield w, False
 
 
 def build_S(cfg, spec):
